@@ -187,6 +187,26 @@ impl PropertyValue {
     }
 }
 
+/// Verification hooks: give crate-internal harnesses access to the private
+/// serialization kernels above.  Compiled only with the `msi_verif` feature.
+#[cfg(feature = "msi_verif")]
+impl PropertyValue {
+    pub(crate) fn verif_write<W: Write>(
+        &self,
+        writer: W,
+        codepage: CodePage,
+    ) -> io::Result<()> {
+        self.write(writer, codepage)
+    }
+
+    pub(crate) fn verif_size_including_padding(
+        &self,
+        codepage: CodePage,
+    ) -> u32 {
+        self.encoded_size_including_padding(codepage)
+    }
+}
+
 // ========================================================================= //
 
 pub struct PropertySet {
